@@ -65,7 +65,15 @@ CONDITIONS = {
     "attestation: signed data / domain": (P0, ["attestation-other-data-signed", "attestation-wrong-domain-type",
                                                "attestation-wrong-fork-version", "attestation-wrong-gvr"]),
     "attestation: duplicate is valid (control)": (P0, ["attestation-duplicate-control"]),
-    "operations: list limits": (P0, ["attestations-over-limit"]),
+    # bounds of the SSZ list types of the body, one condition per (field, fork): MAX + 1 otherwise valid operations
+    "limit: len(attestations) <= MAX_ATTESTATIONS": (P0, ["attestations-over-limit"]),
+    "limit: len(proposer_slashings) <= MAX_PROPOSER_SLASHINGS": (P0, ["proposer-slashings-over-limit"]),
+    "limit: len(attester_slashings) <= MAX_ATTESTER_SLASHINGS": (P0, ["attester-slashings-over-limit"]),
+    "limit: len(deposits) <= MAX_DEPOSITS": (P0, ["deposits-over-limit"]),
+    "limit: len(voluntary_exits) <= MAX_VOLUNTARY_EXITS": (P0, ["voluntary-exits-over-limit"]),
+    "limit: len(bls_to_execution_changes) <= MAX_BLS_TO_EXECUTION_CHANGES": (CAP, ["bls-changes-over-limit"]),
+    "limit: len(payload.transactions) <= MAX_TRANSACTIONS_PER_PAYLOAD": (BEL, ["payload-transactions-over-limit"]),
+    "limit: len(payload.extra_data) <= MAX_EXTRA_DATA_BYTES": (BEL, ["payload-extra-data-over-limit"]),
     # process_proposer_slashing
     "proposer slashing: header slots equal": (P0, ["proposer-slashing-different-slots"]),
     "proposer slashing: proposers equal": (P0, ["proposer-slashing-different-proposers"]),
@@ -195,7 +203,8 @@ def main(tier, seed, replay=None):
             if m["kind"] not in NEG_KINDS:
                 continue
             hit = [v for v in set(re.findall(r'"([a-z0-9-]+)"', m["diff"])) if v in findings]
-            if m["kind"] == "BlockInvalid" and hit:
+            hit = [v for v in hit if m["kind"] == findings[v].get("event_kind", "BlockInvalid")]
+            if hit:
                 lib.report_known(PID, findings[hit[0]]["signature"] + " (replay)")
             else:
                 bad.append(m)
@@ -228,8 +237,9 @@ def main(tier, seed, replay=None):
             if m["kind"] not in NEG_KINDS:
                 continue
             names = set(re.findall(r'"([a-z0-9-]+)"', m["diff"]))
-            hit = [v for v in names if v in findings]
-            if m["kind"] == "BlockInvalid" and hit:
+            # ... and only for the kind of misbehaviour the entry describes ("accepted" unless it says "Panic")
+            hit = [v for v in names if v in findings and m["kind"] == findings[v].get("event_kind", "BlockInvalid")]
+            if hit:
                 known.append((r["file"], m, hit[0]))
             else:
                 violations.append((r["file"], m))
